@@ -38,8 +38,8 @@ JOBS = min(common.NCPU, int(os.environ.get("VERIF_C13_JOBS", "5")))
 OPTSETS = {"greedy": ["-greedy"], "storage": ["-greedy", "-storage"], "partition": ["-greedy", "-partition"],
            "size": ["-greedy", "-size"], "norules": ["-greedy", "-no-simplification"], "encoding": ["-backend", "-solver", "z3"]}
 TIERS = {"quick": {"optsets": ["greedy", "storage", "encoding"], "sim": (120, 7), "real": 120, "files": 1, "enc_limit": 150},
-         "thorough": {"optsets": ["greedy", "storage", "partition", "size", "norules", "encoding"], "sim": (900, 8), "real": 2500, "files": 4,
-                      "enc_limit": 1500}}
+         "thorough": {"optsets": ["greedy", "storage", "partition", "size", "norules", "encoding"], "sim": (600, 8), "real": 1200, "files": 4,
+                      "enc_limit": 1000}}
 VARIANTS = [("seed0", {"PYTHONHASHSEED": "0"}, False), ("seed1", {"PYTHONHASHSEED": "1"}, False),
             ("seed2", {"PYTHONHASHSEED": "2"}, False), ("random", {"PYTHONHASHSEED": "random"}, False),
             ("seed3+load", {"PYTHONHASHSEED": "3"}, True)]
